@@ -174,27 +174,6 @@ Definition ffma (f : fmt) (x y z : fval) : fval :=
       end
   end.
 
-(* correctly rounded quotient.  The integer quotient is computed with prec+3 or more significant
-   bits and a sticky bit appended, so that one round-to-nearest-even step gives the correctly
-   rounded exact quotient.  x/0 is an infinity (0/0 and inf/inf are NaN) *)
-Definition fdiv (f : fmt) (x y : fval) : fval :=
-  let s := xorb (fsign x) (fsign y) in
-  match x, y with
-  | FNaN _, _ | _, FNaN _ => qnan
-  | FInf _, FInf _ => qnan
-  | FInf _, _ => FInf s
-  | _, FInf _ => FZero s
-  | FZero _, FZero _ => qnan
-  | FZero _, _ => FZero s
-  | _, FZero _ => FInf s
-  | FFin _ m1 e1, FFin _ m2 e2 =>
-      let k := prec f + 2 + digits (Zpos m2) in
-      let n := Zpos m1 * 2 ^ k in
-      let q := n / Zpos m2 in
-      let st := if n mod Zpos m2 =? 0 then 0 else 1 in
-      fround f s (2 * q + st) (e1 - e2 - k - 1)
-  end.
-
 (* the value (-1)^s * r * 2^e for an integer r >= 0 (a zero takes the sign s) *)
 Definition fmake (s : bool) (r e : Z) : fval :=
   if r <=? 0 then FZero s else fnorm (FFin s (Z.to_pos r) e).
